@@ -1,5 +1,6 @@
 """C20 density sketch (DESIGN.md section 5 C20): thin structural clauses."""
 import quantile_rules as Q
+import cowrite
 
 
 def run(facts, tier):
@@ -8,6 +9,7 @@ def run(facts, tier):
         ("density rules", Q.density_rules, 6, "dimension guard dominates modification; n_/num_retained_ updated exactly once; compaction accounts every point; estimate weights"),
         ("iterator", lambda fa: Q.iterator_rules(fa, ("density/",)), 3, "iterator constructor couples level and height like operator++"),
         ("compaction loop", lambda fa: [o for o in Q.compaction_triggers(fa) if o["key"].startswith("density")], 2, "compaction repeats while num_retained_ >= k * levels"),
+        ("couplings", lambda fa: cowrite.obligations(fa, ['density_sketch']), 2, "fields that every mutator updates together (counters, extremes, cached values) are still updated together"),
     ):
         o = f(facts)
         obs += o
